@@ -38,7 +38,46 @@ s = open(p).read()
 a, b = '<!-- BEGIN GENERATED 13.1-13.2 -->', '<!-- END GENERATED 13.1-13.2 -->'
 if a in s:
     s = s[:s.index(a) + len(a)] + '\n' + txt + '\n' + s[s.index(b):]
-    open(p, 'w').write(s)
     print('DESIGN.md section 13.1-13.2 regenerated')
 else:
-    print('markers not found')
+    print('markers 13.1-13.2 not found')
+# ---- 13.4: seeded changes and which check catches them (seeded/*/meta.json + seeded/MATRIX.json written by tools/seed_matrix.py)
+mx = {}
+mp = os.path.join(V, 'seeded', 'MATRIX.json')
+if os.path.exists(mp):
+    mx = json.load(open(mp))
+rows = ['| seed | change | first run | now: caught by |', '|------|--------|-----------|----------------|']
+n_total = n_vc = n_si = n_nat = n_miss = 0
+for d in sorted(glob.glob(os.path.join(V, 'seeded', 'C*_*'))):
+    sid = os.path.basename(d)
+    m = json.load(open(os.path.join(d, 'meta.json')))
+    first = m.get('check_result_first_run', [])
+    f_caught = any(str(c).startswith('VIOLATION') for c in first)
+    f_txt = 'caught' if f_caught else ('checker error' if any('CHECKER-ERROR' in str(c) for c in first) else 'missed')
+    now = []
+    for prop, r in sorted(mx.get(sid, {}).get('checks', {}).items()):
+        for h in r['caught_by']:
+            h = re.sub(r'^obligation \S+?\.py:', 'obligation ', h)
+            now.append('%s: %s' % (prop, h))
+        if not r['caught_by']:
+            now.append('%s: exit %d, not caught' % (prop, r['exit']))
+    caught = [x for x in now if 'not caught' not in x]
+    n_total += 1
+    if any('obligation' in x for x in caught):
+        n_vc += 1
+    elif any('native test' in x for x in caught):
+        n_nat += 1
+    elif caught:
+        n_si += 1
+    else:
+        n_miss += 1
+    change = re.sub(r'^C\d\d_\d\s*-\s*', '', m.get('change', ''))[:110].replace('|', '/')
+    rows.append('| %s | %s | %s | %s |' % (sid, change, f_txt, '; '.join(now)[:330] if now else '(matrix not run)'))
+rows.append('')
+rows.append('Totals over %d seeded changes: %d caught by a failed obligation (deductive), %d by the native test of an assumed contract, '
+            '%d only by a bounded stand-in, %d not caught.' % (n_total, n_vc, n_nat, n_si, n_miss))
+a2, b2 = '<!-- BEGIN GENERATED 13.4 -->', '<!-- END GENERATED 13.4 -->'
+if a2 in s:
+    s = s[:s.index(a2) + len(a2)] + '\n' + '\n'.join(rows) + '\n' + s[s.index(b2):]
+    print('DESIGN.md section 13.4 table regenerated')
+open(p, 'w').write(s)
